@@ -7,7 +7,7 @@ import math
 import random
 from fractions import Fraction as F
 
-from .. import core, oracle, rulegen, rules, ruleprops
+from .. import core, history, oracle, rulegen, rules, ruleprops
 from ..core import Case, toF
 from ..ruleprops import violation
 
@@ -15,7 +15,10 @@ RULE = ("seeded elections in which ballots repeat (some multiplicity >=2), all f
         "profile.as_multiprofile(): all rules (selected set), every shipped measure (value of every subset per distinct ballot, totals), "
         "every public analysis function (averages, medians, Gini, histogram, totals, positive share, category proportionality) and the "
         "proportionality checkers on small elections; the rule outcomes are also diffed with the Lean model run on the compressed form; "
-        "non-trivial = at least one ballot with multiplicity >=2 and >=2 distinct ballots")
+        "non-trivial = at least one ballot with multiplicity >=2 and >=2 distinct ballots; plus edit-in-place histories (all four ballot "
+        "types): a profile is converted (as_multiprofile / multiprofile constructor / extend / SatisfactionMultiProfile(profile=...)), "
+        "some voters' ballots are edited in place (also at constant size), the profile is converted again and every comparison above is "
+        "repeated on the new pair, together with the multiset of ballots of the multiprofile against the voters kept on the side")
 ASSUMPTIONS = ["float-valued statistics compared with relative tolerance 1e-9", "MIP-based measures are exercised in C10 (solver isolation)"]
 
 
@@ -114,17 +117,21 @@ def jr_calls(case, inst, projs, rng):
     return out
 
 
-def check_election(ctx, case, small):
+def check_election(ctx, case, small, objs=None):
+    """objs = (inst, projs, P, M): compare these long-lived objects (a history) instead of freshly built ones"""
     rng = ctx.rng
     vs = []
-    inst, projs = core.build_instance(case)
-    if case.btype == "app" and rng.random() < 0.5:
-        cats = ["c1", "c2", "c3"]
-        inst.categories = set(cats)
-        for p in inst:
-            p.categories = set(rng.sample(cats, rng.randint(0, 2)))
-    P = core.build_profile(case, inst, projs, multi=False)
-    M = P.as_multiprofile()
+    if objs is not None:
+        inst, projs, P, M = objs
+    else:
+        inst, projs = core.build_instance(case)
+        if case.btype == "app" and rng.random() < 0.5:
+            cats = ["c1", "c2", "c3"]
+            inst.categories = set(cats)
+            for p in inst:
+                p.categories = set(rng.sample(cats, rng.randint(0, 2)))
+        P = core.build_profile(case, inst, projs, multi=False)
+        M = P.as_multiprofile()
     # measures
     bt = case.btype
     for s in list(core.SAT_BY_TYPE[bt]) + core.SAT_NONADD[bt] + core.SAT_FLOAT_ADD.get(bt, []):
@@ -138,6 +145,21 @@ def check_election(ctx, case, small):
         valsM = {}
         for sm in spM:
             valsM[_bkey(case, sm.ballot)] = sm
+        # the direct conversion list of ballots -> satisfaction multiprofile must describe the same voters
+        from collections import Counter
+        from pabutools.election import SatisfactionMultiProfile
+
+        try:
+            spD = SatisfactionMultiProfile(instance=inst, profile=P, sat_class=sc)
+            gotD = Counter()
+            for sm in spD:
+                gotD[_bkey(case, sm.ballot)] += spD.multiplicity(sm)
+            wantD = Counter(_bkey(case, sp.ballot) for sp in spP)
+            if gotD != wantD:
+                vs.append(violation(f"SatisfactionMultiProfile(profile=..., sat_class={s}) does not hold the voters of the profile", case, {"call": "SatisfactionMultiProfile", "sat": s},
+                                    impl=sorted(map(str, gotD.items())), expected=sorted(map(str, wantD.items())), sig={"call": "SatisfactionMultiProfile", "sat": s}))
+        except Exception as e:  # noqa: BLE001
+            vs.append(violation(f"SatisfactionMultiProfile(profile=..., sat_class={s}) raised {e!r}", case, {"call": "SatisfactionMultiProfile", "sat": s}, sig={"call": "SatisfactionMultiProfile", "sat": s, "err": type(e).__name__}))
         subsets = [list(c) for r in range(min(len(case.names), 3) + 1) for c in itertools.combinations(case.names, r)]
         bad = False
         for sp in spP:
@@ -183,6 +205,281 @@ def _bkey(case, ballot):
     return ("o",) + tuple(p.name for p in ballot)
 
 
+# ----------------------------------------------------------------------------------------------
+# edit-in-place histories: convert, edit some voters' ballots in place (often at constant size), convert again
+
+
+CONVERSIONS = ["as_multiprofile", "as_multiprofile", "ctor_profile", "extend"]
+SCORES = {"card": [0, 1, 1, 2, 3, F(1, 2), 5], "cum": [0, 1, 2, 3]}
+
+
+def convert(P, inst, btype, how):
+    """the list of ballots -> multiprofile conversions of the public API"""
+    import pabutools.election as e
+
+    if how == "as_multiprofile":
+        return P.as_multiprofile()
+    cls = {"app": e.ApprovalMultiProfile, "card": e.CardinalMultiProfile, "cum": e.CumulativeMultiProfile, "ord": e.OrdinalMultiProfile}[btype]
+    if how == "ctor_profile":
+        return cls(instance=inst, profile=P)
+    M = cls(instance=inst)
+    M.extend(P)
+    return M
+
+
+def gen_edit(rng, btype, names, b):
+    """one in-place edit of the ballot `b` (case form) as a JSON-able list, or None; constant-size edits are the frequent ones"""
+    if btype == "app":
+        ins, outs = sorted(b), [x for x in names if x not in b]
+        r = rng.random()
+        if r < 0.45 and ins and outs:
+            return ["swap", rng.choice(ins), rng.choice(outs)]
+        if r < 0.6 and outs:
+            return ["add", rng.choice(outs)]
+        if r < 0.7 and ins:
+            return ["discard", rng.choice(ins)]
+        if r < 0.85:
+            new = rng.sample(names, len(b)) if rng.random() < 0.6 else [x for x in names if rng.random() < 0.5]
+            return ["replace", new]
+        return ["symdiff", [x for x in names if rng.random() < 0.4]]
+    if btype in ("card", "cum"):
+        keys, outs = list(b), [x for x in names if x not in b]
+        r = rng.random()
+        if r < 0.4 and keys:
+            k = rng.choice(keys)
+            return ["score", k, core.q2s(rng.choice([x for x in SCORES[btype] if F(x) != b[k]]))]
+        if r < 0.65 and keys and outs:
+            return ["rekey", rng.choice(keys), rng.choice(outs)]
+        if r < 0.75 and outs:
+            return ["score", rng.choice(outs), core.q2s(rng.choice(SCORES[btype]))]
+        if r < 0.85 and keys:
+            return ["pop", rng.choice(keys)]
+        ks = rng.sample(names, len(b)) if rng.random() < 0.6 else [x for x in names if rng.random() < 0.5]
+        return ["replace", [[k, core.q2s(rng.choice(SCORES[btype]))] for k in ks]]
+    ins, outs = list(b), [x for x in names if x not in b]
+    r = rng.random()
+    if r < 0.35 and len(ins) >= 2:
+        new = list(ins)
+        while new == ins:
+            rng.shuffle(new)
+        return ["reorder", new]  # same projects, another ranking
+    if r < 0.65 and ins and outs:
+        a, c = rng.choice(ins), rng.choice(outs)
+        return ["reorder", [c if x == a else x for x in ins]]  # one project replaced at the same rank
+    if r < 0.8 and outs:
+        return ["append", rng.choice(outs)]
+    if r < 0.9 and ins:
+        return ["pop", rng.choice(ins)]
+    return ["reorder", rng.sample(names, rng.randint(0, len(names)))]
+
+
+def edited(btype, b, op):
+    """the ballot (case form) after `op`: the independent half of the history"""
+    kind = op[0]
+    if btype == "app":
+        cur = list(b)
+        if kind == "swap":
+            if op[1] not in cur or op[2] in cur:
+                raise ValueError(op)
+            return [x for x in cur if x != op[1]] + [op[2]]
+        if kind == "add":
+            return cur + [op[1]] if op[1] not in cur else cur
+        if kind == "discard":
+            return [x for x in cur if x != op[1]]
+        if kind == "replace":
+            return list(dict.fromkeys(op[1]))
+        if kind == "symdiff":
+            return [x for x in cur if x not in op[1]] + [x for x in dict.fromkeys(op[1]) if x not in cur]
+    elif btype in ("card", "cum"):
+        cur = dict(b)
+        if kind == "score":
+            cur[op[1]] = F(op[2])
+            return cur
+        if kind == "rekey":
+            if op[1] not in cur or op[2] in cur:
+                raise ValueError(op)
+            cur[op[2]] = cur.pop(op[1])
+            return cur
+        if kind == "pop":
+            cur.pop(op[1])
+            return cur
+        if kind == "replace":
+            return {k: F(v) for k, v in op[1]}
+    else:
+        cur = list(b)
+        if kind == "reorder":
+            return list(op[1])
+        if kind == "append":
+            return cur + [op[1]] if op[1] not in cur else cur
+        if kind == "pop":
+            cur.remove(op[1])
+            return cur
+    raise ValueError(op)
+
+
+def apply_edit(btype, ballot, op, projs):
+    """the same edit on the real (mutable) ballot object, through its public mutators, in place"""
+    kind = op[0]
+    if btype == "app":
+        if kind == "swap":
+            ballot.remove(projs[op[1]])
+            ballot.add(projs[op[2]])
+        elif kind == "add":
+            ballot.add(projs[op[1]])
+        elif kind == "discard":
+            ballot.discard(projs[op[1]])
+        elif kind == "replace":
+            ballot.clear()
+            ballot.update(projs[x] for x in op[1])
+        elif kind == "symdiff":
+            ballot.symmetric_difference_update({projs[x] for x in op[1]})
+        else:
+            raise ValueError(op)
+    elif btype in ("card", "cum"):
+        if kind == "score":
+            ballot[projs[op[1]]] = core.to_num(F(op[2]))
+        elif kind == "rekey":
+            ballot[projs[op[2]]] = ballot.pop(projs[op[1]])
+        elif kind == "pop":
+            ballot.pop(projs[op[1]])
+        elif kind == "replace":
+            ballot.clear()
+            ballot.update({projs[k]: core.to_num(F(v)) for k, v in op[1]})
+        else:
+            raise ValueError(op)
+    else:
+        if kind == "reorder":
+            ballot.clear()
+            for x in op[1]:
+                ballot.append(projs[x])
+        elif kind == "append":
+            ballot.append(projs[op[1]])
+        elif kind == "pop":
+            ballot.pop(projs[op[1]])
+        else:
+            raise ValueError(op)
+
+
+def gen_edit_history(rng, small=False):
+    """(initial case, history): history = {"conv", "cats", "rounds": [{"edits": [[voter, op], ...], "rule_cfg": cfg}]}; round 0 has no edit"""
+    case = gen_case(rng, small=small)
+    names = [n for n, _ in case.projects]
+    raw = [(dict(b) if isinstance(b, dict) else list(b)) for b in case.ballots]
+    hist = {"conv": rng.choice(CONVERSIONS), "cats": None, "rounds": []}
+    if case.btype == "app" and rng.random() < 0.3:
+        hist["cats"] = {n: rng.sample(["c1", "c2", "c3"], rng.randint(0, 2)) for n in names}
+    for k in range(rng.choice([2, 2, 3])):
+        edits = []
+        if k > 0:
+            for i in rng.sample(range(len(raw)), rng.randint(1, min(3, len(raw)))):
+                op = gen_edit(rng, case.btype, names, raw[i])
+                if op is not None:
+                    edits.append([i, op])
+                    raw[i] = edited(case.btype, raw[i], op)
+        cur = Case(case.projects, case.budget, case.btype, [(dict(b) if isinstance(b, dict) else list(b)) for b in raw], case.seed)
+        cfg = rulegen.gen_rule_cfg(rng, cur, rules=("mes", "phragmen", "greedy"), allow_refuse=False)
+        if len(case.projects) > 5:
+            cfg["res"] = True
+        hist["rounds"].append({"edits": edits, "rule_cfg": ruleprops.cfg_json(cfg)})
+    return case, hist
+
+
+def play_edit_history(ctx, case, hist, small, full=True):
+    """run the history on ONE profile object; yields (round, case now, violations) after every conversion"""
+    from collections import Counter
+
+    inst, projs = core.build_instance(case)
+    if hist.get("cats"):
+        inst.categories = {"c1", "c2", "c3"}
+        for p in inst:
+            p.categories = set(hist["cats"].get(p.name, []))
+    P = core.build_profile(case, inst, projs, multi=False)
+    raw = [(dict(b) if isinstance(b, dict) else list(b)) for b in case.ballots]
+    for k, rnd in enumerate(hist["rounds"]):
+        for i, op in rnd["edits"]:
+            raw[i] = edited(case.btype, raw[i], op)
+            apply_edit(case.btype, P[i], op, projs)
+        cur = Case(case.projects, case.budget, case.btype, [(dict(b) if isinstance(b, dict) else list(b)) for b in raw], case.seed)
+        want = Counter(cur.ballot_key(b) for b in cur.ballots)
+        if Counter(_bkey(cur, b) for b in P) != want:
+            raise AssertionError("harness: the edited ballot objects and the voters kept on the side diverged")
+        vs = []
+        hcfg = {"edit_history": hist, "round": k}
+        try:
+            M = convert(P, inst, case.btype, hist["conv"])
+        except Exception as e:  # noqa: BLE001
+            yield k, cur, [violation(f"conversion {hist['conv']} raised {e!r}", cur, dict(hcfg, call="convert"), sig={"call": "convert", "err": type(e).__name__})]
+            return
+        got = Counter()
+        for fb in M:
+            got[_bkey(cur, fb)] += M.multiplicity(fb)
+        if got != want:
+            vs.append(violation(f"the multiprofile obtained by {hist['conv']} does not hold the current voters of the profile (each distinct ballot once, with its multiplicity)",
+                                cur, dict(hcfg, call="convert"), impl=sorted(map(str, got.items())), expected=sorted(map(str, want.items())), sig={"call": "convert"}))
+        # one rule on both forms
+        cfg = ruleprops.cfg_from_json(rnd["rule_cfg"])
+        if got != want:
+            cfg.pop("loads_per_voter", None)  # initial loads are given per ballot of the election; this multiprofile holds other ballots
+        bP, bM = history.LiveBuilt(cur, inst, projs, P, False), history.LiveBuilt(cur, inst, projs, M, True)
+        cP, cM = dict(cfg, multi=False), dict(cfg, multi=True)
+        rulegen.fix_loads(cP, bP)
+        rulegen.fix_loads(cM, bM)
+        sP, sM = rules.canon(rules.impl_answer(bP, cP)[0]), rules.canon(rules.impl_answer(bM, cM)[0])
+        if sP != sM:
+            vs.append(violation("rule outcome differs between profile and multiprofile", cur, dict(cfg, **hcfg), impl=sM, expected=sP, sig={"call": "rule:" + cfg["rule"], "sat": cfg.get("sat")}))
+        if full:
+            for v in check_election(ctx, cur, small, objs=(inst, projs, P, M)):
+                v["cfg"] = dict(v["cfg"], **hcfg)
+                vs.append(v)
+        yield k, cur, vs
+
+
+def history_stream(ctx, n):
+    rng = ctx.rng
+    for j in range(n):
+        if ctx.budget_s is not None and ctx.elapsed() > ctx.budget_s:
+            break
+        small = j % 5 == 0
+        case, hist = gen_edit_history(rng, small=small)
+        changed = False
+        for k, cur, vs in play_edit_history(ctx, case, hist, small):
+            ctx.evaluations += 1
+            ctx.count("edit_history_conversions", hist["conv"])
+            ctx.count("edit_history_btype", case.btype)
+            for _, op in hist["rounds"][k]["edits"]:
+                ctx.count("edit_history_ops", case.btype + ":" + op[0])
+            for v in vs:
+                # stored so that the replay re-runs the whole history from the initial election
+                v["what"] = f"after conversion {k + 1} of an edit-in-place history: " + v["what"]
+                v["current_case"] = v["case"]
+                v["case"] = case.to_json()
+                v["sig"] = dict(v.get("sig") or {}, history="ballots_edited_in_place")
+                ctx.violations.append(v)
+            changed = changed or (k > 0 and cur.key() != case.key())
+        if changed and len(case.entries()) >= 2:
+            ctx.nontrivial.add("edithist" + case.key() + json.dumps(hist, sort_keys=True, default=str))
+
+
+def replay_history(payload):
+    import types
+
+    case = Case.from_json(payload["case"])
+    hist = payload["cfg"]["edit_history"]
+    upto = payload["cfg"].get("round")
+    want = payload.get("sig", {}).get("call")
+    small = len(case.ballots) <= 4 and len(case.projects) <= 3
+    needs_full = not (want == "convert" or (want or "").startswith("rule:"))
+    for seed in range(8 if needs_full else 1):
+        ctx = types.SimpleNamespace(rng=random.Random(seed), count=lambda *a, **k: None)
+        for k, cur, vs in play_edit_history(ctx, case, hist, small, full=needs_full):
+            if upto is not None and k > upto:
+                break
+            vs = [v for v in vs if want is None or v["sig"].get("call") == want]
+            if vs and (upto is None or k == upto):
+                return False, f"still fails after conversion {k + 1}: " + vs[0]["what"]
+    return True, "profile and multiprofile agree after every conversion of the replayed history"
+
+
 def rule_pairs(ctx, n):
     rng = ctx.rng
     for _ in range(n):
@@ -198,7 +495,7 @@ def rule_pairs(ctx, n):
         yield case, cfg
 
 
-def run(ctx, n_rules=None, n_el=None, compare=True):
+def run(ctx, n_rules=None, n_el=None, compare=True, n_hist=None):
     ctx.rule = RULE
     n_rules = n_rules or ctx.scale(3000, 15000)
     n_el = n_el or ctx.scale(250, 2500)
@@ -278,6 +575,8 @@ def run(ctx, n_rules=None, n_el=None, compare=True):
         if outs[0] != outs[1]:
             ctx.violations.append(violation("wrapper outcome differs between profile and multiprofile", case, cfg, impl=outs[1], expected=outs[0],
                                             sig={"call": "wrapper:" + cfg["mode"]}))
+    # (a'') edit-in-place histories: convert, edit ballots in place, convert again
+    history_stream(ctx, n_hist if n_hist is not None else ctx.scale(300, 3000))
     # (b) measures and analysis functions
     for k in range(n_el):
         if ctx.budget_s is not None and ctx.elapsed() > ctx.budget_s:
@@ -293,12 +592,14 @@ def run(ctx, n_rules=None, n_el=None, compare=True):
 
 
 def search(ctx, disagreements):
-    run(ctx, n_rules=6000, n_el=1500, compare=False)
+    run(ctx, n_rules=6000, n_el=1500, compare=False, n_hist=2000)
 
 
 def replay(payload):
     import types
 
+    if payload.get("cfg", {}).get("edit_history"):
+        return replay_history(payload)
     case = Case.from_json(payload["case"])
     cfg = payload.get("cfg", {})
     if "rule" in cfg:
